@@ -42,6 +42,8 @@ pub enum Class {
     Sys,
     Synth,
     Rule,
+    /// rules with a transition at or across a year boundary: instant lookups only
+    RuleEdge,
 }
 
 impl Class {
@@ -50,6 +52,7 @@ impl Class {
             Class::Sys => "system",
             Class::Synth => "synthetic",
             Class::Rule => "rule",
+            Class::RuleEdge => "rule-at-year-boundary",
         }
     }
     pub fn parse(s: &str) -> Option<Class> {
@@ -57,6 +60,7 @@ impl Class {
             "system" => Class::Sys,
             "synthetic" => Class::Synth,
             "rule" => Class::Rule,
+            "rule-at-year-boundary" => Class::RuleEdge,
             _ => return None,
         })
     }
@@ -65,6 +69,7 @@ impl Class {
             Class::Sys => 500,
             Class::Synth => 501,
             Class::Rule => 502,
+            Class::RuleEdge => 503,
         }
     }
 }
@@ -93,6 +98,22 @@ pub fn make_case(seed: u64, idx: u64, class: Class, sys: &SysZones) -> Option<(C
                 tzif: Arc::new(bytes),
                 rule: None,
                 tight: g.tight,
+            }
+        }
+        Class::RuleEdge => {
+            // as a v3 footer half of the time (extended times), else as a TZ string; only the
+            // instant lookups are judged (`tight`)
+            let ext = rng.chance(1, 2);
+            let rule = gen::gen_edge_rule(&mut rng, ext, 86_399);
+            let s = tzif::rule_string(&rule, &mut rng);
+            if ext {
+                let m = ZoneModel::from_rule(rule);
+                let o = tzif::TzifOpts { version: 3, fat_v1: false, isstd: vec![], isut: vec![], share_suffix: false, footer: s };
+                let mfile = ZoneModel { rule: None, ..m.clone() };
+                let bytes = tzif::write(&mfile, &o).0;
+                Case { label: format!("rule-at-year-boundary#{}", idx), model: ZoneModel { trans: vec![], leaps: vec![], ..m }, tzif: Arc::new(bytes), rule: None, tight: true }
+            } else {
+                Case { label: format!("rule-at-year-boundary#{}", idx), model: ZoneModel::from_rule(rule), tzif: Arc::new(Vec::new()), rule: Some(s), tight: true }
             }
         }
         Class::Rule => {
@@ -517,9 +538,9 @@ fn budgets(tier: &str, scale: f64, nsys: usize) -> Vec<(Class, u64, usize, usize
     // (class, cases, max transition points probed per zone, sparse probes)
     let s = |n: u64| ((n as f64 * scale) as u64).max(1);
     if tier == "thorough" {
-        vec![(Class::Sys, nsys as u64, 100_000, 2_000), (Class::Synth, s(1_200_000), 400, 200), (Class::Rule, s(1_200_000), 400, 200)]
+        vec![(Class::Sys, nsys as u64, 100_000, 2_000), (Class::Synth, s(1_200_000), 400, 200), (Class::Rule, s(1_200_000), 400, 200), (Class::RuleEdge, s(300_000), 400, 200)]
     } else {
-        vec![(Class::Sys, nsys as u64, 60, 100), (Class::Synth, s(6_000), 80, 60), (Class::Rule, s(6_000), 80, 60)]
+        vec![(Class::Sys, nsys as u64, 60, 100), (Class::Synth, s(6_000), 80, 60), (Class::Rule, s(6_000), 80, 60), (Class::RuleEdge, s(3_000), 80, 60)]
     }
 }
 
@@ -754,7 +775,7 @@ pub fn run(opts: &Opts, only: Option<Class>) -> i32 {
     let cov = json!({
         "evaluations": zones,
         "distinct_nontrivial": distinct.len(),
-        "rule": "one evaluation = one zone (a system zoneinfo file without leap seconds, a synthetic TZif file written from a random zone model, or a random in-class POSIX rule) put behind Local in a simulated world after a history of 0-2 other zones, and probed through the accessor and through the public API: instants T-2..T+2 and wall clocks T+o-2..T+o+2 around every (sampled) table and rule transition, plus sparse random ones; each instant is also mapped to its wall clock and back. distinct = distinct zone content; non-trivial = the zone has at least one transition-adjacent probe.",
+        "rule": "one evaluation = one zone (a system zoneinfo file without leap seconds, a synthetic TZif file written from a random zone model, a random in-class POSIX rule, or - judged on instant lookups only - a rule with a transition at or across a year boundary) put behind Local in a simulated world after a history of 0-2 other zones, and probed through the accessor and through the public API: instants T-2..T+2 and wall clocks T+o-2..T+o+2 around every (sampled) table and rule transition, plus sparse random ones; each instant is also mapped to its wall clock and back. distinct = distinct zone content; non-trivial = the zone has at least one transition-adjacent probe.",
         "samples": samples,
         "per_class": per_class,
         "probes": probes,
